@@ -49,7 +49,8 @@ def main():
     t0 = time.time()
 
     # ---- step 1
-    ob = common.proof_obligations(mod.MODULE, getattr(mod, "REQUIRED", []), thorough=ctx.thorough)
+    ob = common.proof_obligations(mod.MODULE, getattr(mod, "REQUIRED", []), thorough=ctx.thorough,
+                                 extra_modules=getattr(mod, "EXTRA_MODULES", ()))
 
     # ---- step 2
     try:
